@@ -253,6 +253,14 @@ fixed("C07", "C07:render-after-re-entry", "6ad5d38",
       [{"rows": 5, "cols": 7, "nhist": 2, "park": None, "keep": False, "hide": True, "reenter_before": 1, "steps": [
           {"array": ["hello", "world"], "cursor": [0, 0]}, {"array": ["hello", "world"], "cursor": [0, 0]}]}])
 
+fixed("C12", "C12:interrupted-while-entering-nonblocking", "54141d9",
+      "a KeyboardInterrupt raised right after Nonblocking.__enter__ set O_NONBLOCK (or on entry to its __exit__), caught by "
+      "the application around Input.send(), left the stream non-blocking between requests",
+      [{"kind": "input", "cfg": {"sigint_event": False}, "body": ["send0", "feed", "send0", "send_s", "send0"],
+        "tty": "cbreak", "survive": True, "crash": c}
+       for c in (["at", "Nonblocking.__enter__", "after fcntl", 2], ["at", "Nonblocking.__exit__", "first", 1],
+                 ["at", "Nonblocking.__enter__", "after fcntl", 4])])
+
 known("C03", "C03:prefix-then-undecodable-byte",
       "get_key raises UnicodeDecodeError for a table-sequence prefix (e.g. ESC) followed by a byte >= 0x80 "
       "that does not decode: ESC + any 8-bit byte under ascii, ESC + a UTF-8 lead/continuation byte under utf-8",
